@@ -114,6 +114,11 @@ func genConfinePkg() {
 		l.defStrList(v[2], assignsOf(impl, "implementation.go", v[0], v[1]))
 	}
 
+	// a non-hex datahash ends cachedPackage before anything is written (only os.Stat saw the path made of it)
+	l.defStrList("cachedPackageDatOrder", callsOf(impl, "implementation.go", "APK.cachedPackage", func(c string) bool {
+		return c == "os.Stat" || c == "hex.DecodeString" || c == "exp.PackageData"
+	}))
+
 	// ---- uses of the package record ----
 	{
 		var uses []string
